@@ -64,7 +64,7 @@ func genExpr(t *rapid.T, equs []string, consts bool, depth int) []rc.Tok {
 		case k == 4 && consts:
 			o = rc.Toks(rc.ID(rapid.SampledFrom([]string{"CORESIZE", "MAXLENGTH", "MAXPROCESSES", "MINDISTANCE"}).Draw(t, "const")))
 		case k == 5:
-			o = rc.Toks(rc.N(int64(rapid.SampledFrom([]int{0, 1, 2147483647, 65536, 46341, 1000000}).Draw(t, "big"))))
+			o = rc.Toks(rc.N(int64(rapid.SampledFrom([]int{0, 1, 2147483647, 2147483648, 65536, 46341, 1000000, 8, 9, 10, 100}).Draw(t, "big"))))
 		default:
 			o = rc.Toks(rc.N(int64(rapid.IntRange(0, 99).Draw(t, "lit"))))
 		}
@@ -132,7 +132,7 @@ func genExprCase(t *rapid.T) exprCase {
 		c.E2 = genExpr(t, names, true, rapid.IntRange(0, 3).Draw(t, "depth2"))
 	}
 	c.N = rapid.IntRange(1, 6).Draw(t, "n")
-	c.Style = rc.Style{Choices: rapid.SliceOfN(rapid.IntRange(0, 63), 4, 32).Draw(t, "choices")}
+	c.Style = rc.Style{Choices: rapid.SliceOfN(rapid.IntRange(0, 63), 4, 32).Draw(t, "choices"), LeadingZeros: rapid.IntRange(0, 3).Draw(t, "leadingzeros") == 0}
 	return c
 }
 
